@@ -1,6 +1,6 @@
 SPECIFICATION Spec
 CONSTANTS
-  Key = {"a", "a/b", "c"}
+  Key = {"a", "a/b", "c", "d", "d/e", "d/e/f"}
   Parent <- ParentMap
 INVARIANTS C15_Contract
 CHECK_DEADLOCK FALSE
